@@ -170,7 +170,15 @@ class Ctx:
             shutil.copy(os.path.join(hdir, "Cargo.lock.seed"), os.path.join(hdir, "Cargo.lock"))
         elif os.path.exists(lock) and not os.path.exists(os.path.join(hdir, "Cargo.lock")):
             shutil.copy(lock, os.path.join(hdir, "Cargo.lock"))
+        if REPO != "/repo":
+            # mutation testing against a scratch copy of the repository without touching /repo: the
+            # harness crates name /repo/... as path dependencies; cargo's `paths` override swaps in the
+            # packages of the scratch tree, and a separate target dir keeps the normal cache clean
+            tgt = os.path.join(BUILD, "cargo-alt", harness)
+            os.makedirs(tgt, exist_ok=True)
         cmd = ["cargo", "build", "--offline"] + (["--release"] if release else [])
+        if REPO != "/repo":
+            cmd += ["--config", "paths=[%s]" % ",".join('"%s/%s"' % (REPO, d) for d in ("cache", "channels", "ioc", "logging"))]
         if bin:
             cmd += ["--bin", bin]
         if features:
